@@ -39,7 +39,7 @@ Definition hopt (h : option N) (cs : list N) : Prop := h = None \/ exists d, h =
 (* a side that has an id: heap cell k = object ob of that side's provider *)
 Record FullOk (evl : evlist) (g : ghost) (w : world) (e : nat) (en : StateModel.entry) (sd : bool) (k : nat) (ob : ProvModel.obj) : Prop := {
   fo_trash : s_ex (gs en sd) = ExTrashed -> ProvModel.o_exists ob = false;
-  fo_K : pd evl sd k = true \/ (x_lg (getx w e sd) < maxchg en) \/ freshP (gs en sd) ob;
+  fo_K : is_discarded (e_ign en) = false -> pd evl sd k = true \/ (x_lg (getx w e sd) < maxchg en) \/ freshP (gs en sd) ob;
   fo_path : popt (s_path (gs en sd)) (pstr (ProvModel.o_path ob));
   fo_spath : popt (s_spath (gs en sd)) (pstr (ProvModel.o_path ob));
   fo_disc : is_discarded (e_ign en) = true -> ProvModel.o_exists ob = false;
@@ -155,7 +155,7 @@ Lemma FullOk_frame evl evl' g g' w w' e en sd k ob :
   FullOk evl' g' w' e en sd k ob.
 Proof.
   intros F Hlg Hpd Hg Hother. destruct F as [f1 f2 f3 f4 f5 f6 f7 f8 f10 f9]. constructor; auto.
-  - destruct f2 as [A|[A|A]]; [left; auto|right; left; rewrite Hlg; exact A|right; right; exact A].
+  - intros Hd. destruct (f2 Hd) as [A|[A|A]]; [left; auto|right; left; rewrite Hlg; exact A|right; right; exact A].
   - intros Hd Ho. eapply flagP_mono; [exact Hpd|auto].
   - intros Hd Ho. destruct (f7 Hd Ho) as [A|A]; [left; eapply flagP_mono; eauto|right; exact A].
   - intros Hd cs Hcs. rewrite Hg in Hcs. destruct (f8 Hd cs Hcs) as (A & B & C & D & E0).
